@@ -925,7 +925,13 @@ class Exec:
     def eval_clauses(self, fn, *views):
         """A clause function returns a Bool, a (tag, Bool) pair, a dsl.With(goal, facts), or a list of those
         -> list of (tag, Bool).  `With` facts become separate obligations first (see oblige_clause)."""
-        r = fn(*views)
+        try:
+            r = fn(*views)
+        except (AttributeError, TypeError, KeyError, IndexError) as e:
+            # a clause written for values of one shape meets a value of another (the code under verification re-bound a name to something else):
+            # the sidecar contract does not fit this version of the function - undecided, never "checker broken"
+            raise Unsupported(f"contract clause cannot be evaluated on this version of the function ({e.__class__.__name__}: {e}); the sidecar "
+                              f"contract no longer matches the code")
         out = []
 
         def add(x):
